@@ -6,8 +6,13 @@ from sa.rules import store, ownrule
 def check(ix, rep):
     n = store.check_store(ix, rep)
     rep.floor('result-store obligations', n, 12)
+    ni = store.check_identity_keys(ix, rep)
+    rep.floor('node classes whose objects key the result stores', ni, 39)
     nn = store.check_name_table(ix, rep)
     rep.floor('name-table obligations', nn, 35)
+    from sa.rules import nodename
+    nk = nodename.check(ix, rep, 'name-table')
+    rep.floor('name obligations (parts of the printed name, skeletons)', nk, 120)
     store.check_pastifier_remap(ix, rep)
     # a named sub-formula that is stepped twice in one update no longer has the value of the same formula monitored on its own
     from sa.rules import step
